@@ -311,6 +311,9 @@ def run_job(job, scratch, clause_text=None):
     if canary is None:
         job.status, job.reason = 'undecided', 'vacuity canary missing from cbmc result'
         return job
+    if canary != 'FAILURE' and job.finding_region and any(r['status'] == 'FAILURE' for r in results):
+        # inside a known-finding region the call may never return normally (that is the finding)
+        canary = job.canary = 'FAILURE'
     if canary != 'FAILURE':
         job.status, job.reason = 'undecided', ('vacuity canary not reachable (status %s): the precondition is '
                                                'unsatisfiable or the call never returns' % canary)
@@ -385,6 +388,11 @@ def run_jobs(jobs, scratch, clause_text=None, ncpu=None):
             j.status, j.reason = 'undecided', 'driver error: %r' % (e,)
         with lock:
             done.append(j)
+            if not os.environ.get('CV_VERBOSE'):
+                if j.status == 'ok':
+                    return j
+                if j.status == 'undecided' and sum(1 for x in done if x.status == 'undecided') > 3:
+                    return j
             log('  [%3d/%3d] %-52s %-9s %4d obl  %6.1fs %s' % (
                 len(done), len(jobs), j.name, j.status, len(j.obligations), j.solver_s,
                 (j.reason[:160] if j.status == 'undecided' else
